@@ -55,7 +55,7 @@ CHECKS = {
    ref="DESIGN.md §6 C11", note="trusted base: list model and reference codec in harness (written from the standard), rapid; known finding KF-C11-serializer is attributed only when the tree-style serializer explains the entire result"),
  "C12": dict(
    technique="stateful property-based testing (rapid): query/list consistency invariants I1-I4 after every step of generated interleavings of list mutations, SetSearch and other setters over several live handles",
-   text="Generated interleavings of SearchParams mutations through several handles (obtained before and after SetSearch), SetSearch calls and other setters; after every step the URL's Query/Search/Href query part equal the list serialization (after list mutations), every handle equals the form-urlencoded parse of the new query (after SetSearch), and other setters leave both alone.",
+   text="Generated interleavings of SearchParams mutations through several handles (obtained before and after SetSearch), SetSearch calls and other setters; after every step the URL's Query/Search/Href query part equal the list serialization (after list mutations), every handle equals the form-urlencoded parse of the new query (after SetSearch), and other setters leave both alone; list operations on a Clone of the URL or on the result of resolving against it leave the URL and every live handle alone. Lists of up to 40 parameters; the names a replaced list held stay among the names looked up.",
    ref="DESIGN.md §6 C12", note="trusted base: invariants in harness/props/c12.go, reference form-urlencoded parser, rapid"),
  "C13": dict(
    technique="stateful property-based testing (rapid) over two aliased values: snapshot-unchanged invariant for the untouched side and isolated-twin equivalence for the operated side",
@@ -79,11 +79,11 @@ CHECKS = {
    ref="DESIGN.md §6 C18", note="trusted base: the grammar and renderer in harness/props/web.go, rapid; findings KF-C18-empty-fragment and KF-C18-nested-dots attributed by counterfactual classifiers"),
  "C02": dict(
    technique="stateful property-based testing / robustness fuzzing (rapid): generated configurations x generated API programs over a register file of URLs, recover() around every step, (nil, nil) contract, hang watchdog confirmed in a fresh process",
-   text="A configuration (predefined profile, or 0..6 of 25 options with valued options from families incl. special-scheme maps without file, encoding overrides, generated encode sets, total host callbacks) and a program (initial parse with hostile / arbitrary / very long arguments, then up to 12 setter, resolve, clone, SearchParams (incl. Iterate callbacks that call back into the same list), SetSearchParams, BasicParser with the setters' state overrides, NewUrl, encode/decode and profile operations) are executed with all getters called after every step; any panic, (nil, nil) result or non-returning call is a violation.",
+   text="A configuration (predefined profile, or 0..6 of 25 options with valued options from families incl. special-scheme maps without file, encoding overrides, generated encode sets, total host callbacks) and a program (initial parse with hostile / arbitrary / very long arguments, then up to 12 setter, resolve, clone, SearchParams (incl. Iterate callbacks that call back into the same list; lists of 9..65 parameters with look-ups around search-setter calls), SetSearchParams, BasicParser with the setters' state overrides, NewUrl, encode/decode and profile operations) are executed with all getters called after every step; any panic, (nil, nil) result or non-returning call is a violation.",
    ref="DESIGN.md §6 C02, §7.8", note="trusted base: recover()/watchdog harness in harness/props/c02.go and harness/core, rapid"),
  "C14": dict(
    technique="property-based testing (rapid) over generated concurrent programs on shared parsers / profiles / base URLs, executed under the Go race detector (-race), with a sequential-equivalence oracle and table-immutability fingerprints",
-   text="Generated programs of 2..8 goroutines released from one barrier run read-only operations (parse, resolve against shared bases with and without lazily created state, getters, reads through a parameter-list handle created before sharing, Clone, NewUrl followed by setters on the private value, encode, set derivation) on one shared parser or profile; the race detector's log must not grow, every result must equal the same call run alone on private copies, and all package-level tables must be unchanged.",
+   text="Generated programs of 2..8 goroutines released from one barrier run read-only operations (parse, resolve against shared bases with and without lazily created state, getters, reads through a parameter-list handle created before sharing (lists of up to 40 parameters), Clone, NewUrl followed by setters on the private value, encode, set derivation) on one shared parser or profile; the race detector's log must not grow, every result must equal the same call run alone on private copies, and all package-level tables must be unchanged.",
    ref="DESIGN.md §6 C14, §8", note="trusted base: Go race detector (happens-before), the harness in harness/props/c14.go, rapid; interleavings are those the scheduler produced, not enumerated"),
  "C20": dict(
    technique="property-based testing (rapid) over generated repetition families plus a fixed family table, with deterministic cost counters (bytes allocated, allocation count, statements executed via a -cover build) and a growth-exponent oracle",
